@@ -169,7 +169,7 @@ def lean_obligations(ctx):
     return out
 
 
-GEN_MODULES = ["Arith", "Details", "Bytes", "Limit", "Footer", "Fast", "Realloc", "Reset", "NewChunk", "Slow", "Iter", "RawVec", "Rewind", "Ctor", "Vec", "VecDrain", "VecIntoIter", "VecFilter", "VecCopy", "Glue", "Box", "Lossy", "Str", "Chunks", "Typed", "Splice", "Slices", "SpliceDrop", "StrFwd"]
+GEN_MODULES = ["Arith", "Details", "Bytes", "Limit", "Footer", "Fast", "Realloc", "Reset", "NewChunk", "Slow", "Iter", "RawVec", "Rewind", "Ctor", "Vec", "VecDrain", "VecIntoIter", "VecFilter", "VecCopy", "Glue", "Box", "Lossy", "Str", "Chunks", "Typed", "Splice", "Slices", "SpliceDrop", "StrFwd", "FwdVec", "FwdStr", "FwdCore"]
 
 
 def gen_diff(ctx):
